@@ -592,6 +592,8 @@ struct Spec {
     stall_k: u8,
     /// 1: the batch runs without the quarantine (freed blocks are reusable at once)
     reuse: u8,
+    /// 1: the join is evaluated as an argument of `eprint!` (under the stderr print lock)
+    join_in_print: u8,
 }
 const SPEC_BYTES: usize = 32;
 
@@ -611,6 +613,7 @@ impl Spec {
             stall_ns: u32::from_le_bytes([b[24], b[25], b[26], b[27]]).min(2_000_000),
             stall_k: b[28],
             reuse: b[29],
+            join_in_print: b[30],
         }
     }
 }
@@ -1118,7 +1121,7 @@ pub fn main() -> i32 {
         if n == 0 || n > MAXN || len < 4 + n * SPEC_BYTES {
             return 7;
         }
-        let mut specs = [Spec { ty: 0, behave: 0, disp: 0, inline: 0, cdk: 0, pdk: 0, buflen: 0, cda: 0, pda: 0, tag: 0, stall_ns: 0, stall_k: 0, reuse: 0 }; MAXN];
+        let mut specs = [Spec { ty: 0, behave: 0, disp: 0, inline: 0, cdk: 0, pdk: 0, buflen: 0, cda: 0, pda: 0, tag: 0, stall_ns: 0, stall_k: 0, reuse: 0, join_in_print: 0 }; MAXN];
         for i in 0..n {
             specs[i] = Spec::parse(&inbuf[4 + i * SPEC_BYTES..4 + (i + 1) * SPEC_BYTES]);
         }
@@ -1179,7 +1182,17 @@ fn run_batch(specs: &[Spec], pipe: (usize, usize)) {
                 }
             }
             if join {
-                let (c, hsh, l) = join_h(h);
+                let (c, hsh, l) = if specs[i].join_in_print != 0 {
+                    // `eprint!("{}", handle.join())`: the argument is evaluated after the macro took the print lock
+                    let mut r = (0u8, 0u64, 0u32);
+                    tiny_std::eprint!("{}", {
+                        r = join_h(h);
+                        ""
+                    });
+                    r
+                } else {
+                    join_h(h)
+                };
                 if STALL_NOW[i].load(SeqCst) == 1 {
                     ps[i].stall_obs |= 2; // join came back while the thread still sleeps in its epilogue
                 }
